@@ -157,3 +157,20 @@ Example C16_burst_trace :
      [Exited]; [Data (Some 6%N)]; [Bursted 5 1 false 8 2 true]; [RetB true]]%N /\
   strictly_accepted (judge minit sinit (snd (run init ops))) = true.
 Proof. vm_compute. split; reflexivity. Qed.
+
+(* Configured timeouts that are not multiples of 100 ms: the announced timeout is the configured one truncated
+   to tenths of a second (DurationType text), and the ticker is derived from the announced text, so the period
+   never exceeds what is announced — in particular 2.05 s is announced as 2 s and then runs every 2 s (2 s is
+   not above the threshold), 190 ms is announced and run as 100 ms. *)
+Theorem C16_period_of_configured : forall t, 100 <= t ->
+  0 < period (announced t) <= announced t /\ announced t <= t /\ t - announced t < 100.
+Proof.
+  intros t H. pose proof (announced_bounds t H) as [[H1 H2] [_ H3]].
+  split; [apply period_bounds; lia|]. split; assumption.
+Qed.
+Print Assumptions C16_period_of_configured.
+
+Example C16_period_near_threshold :
+  period (announced 2050) = 2000 /\ period (announced 2090) = 2000 /\ period (announced 2100) = 100 /\
+  period (announced 190) = 100 /\ period (announced 4050) = 2000.
+Proof. vm_compute. repeat split; reflexivity. Qed.
